@@ -366,7 +366,7 @@ def c06(tier, repo=None):
     fams = fams + [("if2", consts("pregel", 2, 3, 1, 1, marks=1, fail=True, maxchoice=(3,)), {})]     # errors must not write a checkpoint
     return run_engine_check("C06", tier, model_cfgs=["MC_EinoRun_pregel2.cfg", "MC_EinoRun_nest_after.cfg"] + (["MC_EinoRun_dag3.cfg", "MC_EinoRun_nest_before.cfg"] if tier == "thorough" else []),
                             model_must_fail=["MC_EinoRun_nostartcheck.cfg"],
-                            families=fams, decorate_kw={"noid_frac": 0.12, "state_frac": 0.3, "all_paradigms": True, "storefail_frac": 0.06}, nontrivial=nontrivial, nest_frac=0.12,
+                            families=fams, decorate_kw={"noid_frac": 0.12, "state_frac": 0.3, "all_paradigms": True, "storefail_frac": 0.06, "empty_frac": 0.05}, nontrivial=nontrivial, nest_frac=0.12,
                             nest_marks=True, limit=limit, repo=repo,
                             assumptions=["'stops before any of its successors starts' is read per the statement: only successors triggered by the after-node are constrained"])
 
